@@ -4674,7 +4674,7 @@ def _inner_worker(a, b, do_conj):
         res += blas_dot(a_data[i], b_data[j])
         # same as res += np.inner(a_data[i].reshape((-1, )), b_data[j].reshape((-1, )))
         # (or with complex conj if 'do_conj')
-    return res
+    return res_dtype.type(res)  # (calc_dtype can differ from res_dtype, e.g. for integers)
 
 
 def _drop_duplicate_labels(a_labels, b_labels):
